@@ -83,7 +83,7 @@ fn modules() -> Vec<Box<dyn Module>> {
 /// Which modules the check of a property runs (each module generates the ops relevant to `pid`).
 fn modules_for(pid: &str) -> &'static [&'static str] {
     match pid {
-        "C01" => &["styled", "adapters", "image", "text", "circle", "ellipse", "rrect", "sector"],
+        "C01" => &["styled", "adapters", "image", "text", "circle", "ellipse", "rrect", "sector", "thick"],
         "C02" => &["styled", "text", "image", "thick", "sector"],
         "C03" => &["adapters"],
         "C04" => &["faults"],
